@@ -400,3 +400,74 @@ def sat_atom_values(fn, stmt, atom_pattern, env=None):
                 out.add(av)
                 break
     return out
+
+
+def sat_assignments(fn, stmt, atom_patterns, env=None):
+    """Set of truth-value tuples (one entry per pattern in atom_patterns) under which the If-conditions enclosing `stmt` in `fn` can all
+    hold, the remaining leaf conditions being free.  A leaf is matched against the patterns after normalisation (norm_leaf); once-bound
+    Boolean locals are replaced by their definitions.  None: stmt not found."""
+    import itertools
+    pc = path_condition(fn, stmt)
+    if pc is None:
+        return None
+    conds = [(subst_bool_locals(fn, t), pol) for t, pol in pc]
+    leaves = []
+    for t, _ in conds:
+        _bool_leaves(t, leaves)
+
+    def which(l):
+        l0 = norm_leaf(l)[0]
+        for i, p in enumerate(atom_patterns):
+            pats = (p,) if isinstance(p, str) else p
+            if any(match(q, l0, env) is not None for q in pats):
+                return i
+        return None
+    keys = sorted({ast.unparse(norm_leaf(l)[0]) for l in leaves if which(l) is None})
+    out = set()
+    for av in itertools.product([False, True], repeat=len(atom_patterns)):
+        for combo in itertools.product([False, True], repeat=min(len(keys), 12)):
+            table = dict(zip(keys, combo))
+
+            def val(l, av=av, table=table):
+                i = which(l)
+                base = av[i] if i is not None else table.get(ast.unparse(norm_leaf(l)[0]), False)
+                return base != norm_leaf(l)[1]
+            if all(_bool_eval(t, val) == pol for t, pol in conds):
+                out.add(av)
+                break
+    return out
+
+
+def forced_label(cond, atom_pattern, value, env=None):
+    """the branch (`true` / `false`) a test with condition `cond` takes whenever the atom has truth value `value`, whatever the other
+    leaves are; None if the atom alone does not decide it"""
+    import itertools
+    leaves = _bool_leaves(cond, [])
+    is_atom = lambda l: match(atom_pattern, norm_leaf(l)[0], env) is not None      # noqa: E731
+    keys = sorted({ast.unparse(norm_leaf(l)[0]) for l in leaves if not is_atom(l)})
+    if not any(is_atom(l) for l in leaves):
+        return None
+    out = set()
+    for combo in itertools.product([False, True], repeat=min(len(keys), 12)):
+        table = dict(zip(keys, combo))
+        val = lambda l: (value if is_atom(l) else table.get(ast.unparse(norm_leaf(l)[0]), False)) != norm_leaf(l)[1]      # noqa: E731
+        out.add(bool(_bool_eval(cond, val)))
+    return {True: "true", False: "false"}[out.pop()] if len(out) == 1 else None
+
+
+def cond_equiv(c1, c2):
+    """+1 if the two conditions have the same truth table over their (normalised) leaf conditions, -1 if one is the negation of the
+    other, 0 otherwise"""
+    import itertools
+    leaves = _bool_leaves(c1, []) + _bool_leaves(c2, [])
+    keys = sorted({ast.unparse(norm_leaf(l)[0]) for l in leaves})
+    if len(keys) > 10:
+        return 0
+    same = opp = True
+    for combo in itertools.product([False, True], repeat=len(keys)):
+        table = dict(zip(keys, combo))
+        val = lambda l: table[ast.unparse(norm_leaf(l)[0])] != norm_leaf(l)[1]      # noqa: E731
+        a, b = _bool_eval(c1, val), _bool_eval(c2, val)
+        same = same and (a == b)
+        opp = opp and (a != b)
+    return 1 if same else (-1 if opp else 0)
